@@ -779,7 +779,7 @@ class Parser:
         return expr
 
     def _continue_parsing_expression(
-        self, left: Node, exclude_in: bool = False
+        self, left: Node, exclude_in: bool = False, allow_sequence: bool = True
     ) -> Node:
         """Continue parsing an expression after we already have the left-hand side.
 
@@ -818,7 +818,7 @@ class Parser:
             left = AssignmentExpression(op, left, right)
 
         # Then sequence (comma)
-        if self._check(TokenType.COMMA):
+        if allow_sequence and self._check(TokenType.COMMA):
             expressions = [left]
             while self._match(TokenType.COMMA):
                 expressions.append(self._parse_assignment_expression(exclude_in))
@@ -1188,8 +1188,19 @@ class Parser:
                 # Move up a level
                 current_depth -= 1
                 if current_depth >= 0:
-                    # Add this array as an element to the parent
-                    array_stack[current_depth].append(array_expr)
+                    # The literal just closed is only the start of the
+                    # parent's element: [[1].length], [[1][0] + 2, 3]
+                    element: Node = array_expr
+                    if not self._check(TokenType.RBRACKET, TokenType.COMMA):
+                        element = self._parse_postfix_operators(element)
+                        element = self._continue_parsing_expression(
+                            element, allow_sequence=False
+                        )
+                    array_stack[current_depth].append(element)
+                    if not self._check(TokenType.RBRACKET) and not self._match(
+                        TokenType.COMMA
+                    ):
+                        raise self._error("Expected ',' or ']' after array element")
                 else:
                     # We're done
                     return array_expr
